@@ -275,7 +275,9 @@ class ForwardScheduler(IScheduler):
             predecessors += [t for t in parent.predecessors]
 
         for pred in predecessors:
-            self.__forward_pass(pred, self.__start, resource_usage, calculated)
+            # A predecessor outside the WBS being scheduled keeps its own (validated) dates
+            if pred.wbs is _task.wbs:
+                self.__forward_pass(pred, self.__start, resource_usage, calculated)
 
         max_predecessor_ends = max([t.end for t in predecessors if t.end is not None] + [min_date])
 
@@ -454,7 +456,9 @@ class BackwardScheduler(IScheduler):
             successors += [t for t in parent.successors]
 
         for succ in successors:
-            self.__backward_pass(succ, self.__end, resource_usage, calculated)
+            # A successor outside the WBS being scheduled keeps its own dates
+            if succ.wbs is _task.wbs:
+                self.__backward_pass(succ, self.__end, resource_usage, calculated)
 
         min_successor_starts = min([t.start for t in successors if t.start is not None] + [min_date])
 
